@@ -198,6 +198,12 @@ pub fn zoo(thorough: bool) -> Vec<Model> {
     v.push(m("saftvrmie/methane+ethane(kij)", "SaftVRMie", 260.0,
         ResidualModel::SaftVRMie(SaftVRMie::new(Arc::new(from_json_str::<SaftVRMieParameters>(
             &shipped("saftvrmie/lafitte2013.json", &["methane", "ethane"]), &[((0, 1), r#"{"k_ij":0.01}"#)]))))));
+    // SAFT-VR Mie has its own association implementation (src/saftvrmie/eos/association.rs)
+    v.push(m("saftvrmie/methanol(assoc)", "SaftVRMie", 512.0,
+        ResidualModel::SaftVRMie(SaftVRMie::new(Arc::new(from_json_str::<SaftVRMieParameters>(&shipped("saftvrmie/lafitte2013.json", &["methanol"]), &[]))))));
+    v.push(m("saftvrmie/methanol+ethanol(cross-assoc)", "SaftVRMie", 515.0,
+        ResidualModel::SaftVRMie(SaftVRMie::new(Arc::new(from_json_str::<SaftVRMieParameters>(
+            &shipped("saftvrmie/lafitte2013.json", &["methanol", "ethanol"]), &[]))))));
     // SAFT-VRQ Mie
     v.push(m("saftvrqmie/hydrogen+neon", "SaftVRQMie", 40.0,
         ResidualModel::SaftVRQMie(SaftVRQMie::new(Arc::new(
